@@ -771,6 +771,50 @@ Fixpoint run_changes (x : ectx) (pol : policy_fn) (emax : N) (raddr : ipaddr) (c
         Ok (fst r1 ++ fst r2, snd r2)))
   end.
 
+(* PeerSession::handle_prefix_update (event/mod.rs), the caller of process_nlri_change for
+   every change a neighbour's task receives, for a family that is not a VPN family: nothing
+   when the family was not negotiated; otherwise process_nlri_change with the session's
+   send-max for the family, its address, cluster id, export context and export policy, into
+   the family's PendingTx.  (The same policy may panic: process_change_r.) *)
+Fixpoint run_updates (has_family : bool) (x : ectx) (polr : policy_fn_r) (emax : N) (raddr : ipaddr)
+         (cid : option N) (cs : list change) (e : emap) : res (list sinkop * emap) :=
+  match cs with
+  | [] => Ok ([], e)
+  | c :: t =>
+    rbind (if has_family then process_change_r x polr emax raddr cid c e else Ok ([], e)) (fun r1 =>
+      rbind (run_updates has_family x polr emax raddr cid t (snd r1)) (fun r2 =>
+        Ok (fst r1 ++ fst r2, snd r2)))
+  end.
+
+(* PeerSession::apply_refresh_walk (route refresh / soft reset out, since 13d2f6a): every
+   destination of the walk goes through process_nlri_change once per path, that path named as
+   replaced, on a session with send-max > 1 (so that the Add-Path branch re-sends it); once,
+   with no replaced id, otherwise.  A destination without paths is not looked at on an Add-Path
+   session. *)
+Definition with_replaced (c : change) (r : option N) : change :=
+  {| c_family := c_family c; c_dest := c_dest c; c_best_changed := c_best_changed c;
+     c_any_changed := c_any_changed c; c_replaced := r; c_paths := c_paths c |}.
+
+Definition refresh_changes (emax : N) (c : change) : list change :=
+  if 1 <? emax then map (fun p => with_replaced c (Some (p_lpid p))) (c_paths c)
+  else [with_replaced c None].
+
+(* PendingTx (peer_tx.rs): reach / unreach keyed by (path id - 0 unless Add-Path TX -, NLRI),
+   the last operation for a key wins; drain_messages hands over what is pending.  The model
+   has one NLRI per destination id. *)
+Inductive pending := PNothing | PUnreach | PReach (nh : option nexthop) (attrs : list attr).
+
+Fixpoint pending_after (addpath_tx : bool) (ops : list sinkop) (d key : N) (st : pending) : pending :=
+  match ops with
+  | [] => st
+  | Unreach d' p' :: t =>
+    pending_after addpath_tx t d key
+      (if (d' =? d) && ((if addpath_tx then p' else 0) =? key) then PUnreach else st)
+  | Reach d' p' nh a _ :: t =>
+    pending_after addpath_tx t d key
+      (if (d' =? d) && ((if addpath_tx then p' else 0) =? key) then PReach nh a else st)
+  end.
+
 (* ------------------------------------------------------------ the LLGR period begins
    Table::restale_llgr(addr, family) (table/src/lib.rs, since 03ea310), for one
    destination that holds a path of the peer: the shared llgr_stale flag of the
@@ -856,6 +900,47 @@ Definition llgr_scenario_v (new_stream : bool) (x : ectx) (pol : policy_fn) (ema
       Ok (fst r1, fst r2, snd r2))).
 Definition llgr_scenario := llgr_scenario_v true.
 
+(* Table::drop_no_llgr(addr, family) for one destination (table/src/lib.rs): the paths of
+   the peer that carry NO_LLGR (0xFFFF0007) are removed when its LLGR period begins (RFC 9494
+   4.2; TableManager::mark_llgr_stale calls it right after restale_llgr).  Inputs as for
+   restale_llgr_changes; [others_left]: entries that are not eligible remain.  A change is
+   reported only when an eligible path was removed. *)
+Definition NO_LLGR : list N := [255; 255; 0; 7].
+
+Definition has_no_llgr (attrs : list attr) : bool :=
+  match find_code COMMUNITY attrs with
+  | Some a => match binary a with Some b => chunks4_contains NO_LLGR b | None => false end
+  | None => false
+  end.
+
+Definition drop_no_llgr_changes (fam dest : N) (addr : ipaddr) (old_best : option N) (paths : list path)
+           (others_left : bool) : list change :=
+  let doomed := fun p => ip_eqb (src_raddr (p_src p)) addr && has_no_llgr (p_attrs p) in
+  if negb (existsb doomed paths) then []
+  else
+    let rest := filter (fun p => negb (doomed p)) paths in
+    match rest, others_left with
+    | [], false => [ {| c_family := fam; c_dest := dest; c_best_changed := true; c_any_changed := true;
+                        c_replaced := None; c_paths := [] |} ]
+    | _, _ =>
+      let new_best := match rest with p :: _ => Some (p_lpid p) | [] => None end in
+      [ {| c_family := fam; c_dest := dest; c_best_changed := negb (opt_n_eqb old_best new_best);
+           c_any_changed := true; c_replaced := None; c_paths := rest |} ]
+    end.
+
+(* the whole of TableManager::mark_llgr_stale for the one-path destination, exported *)
+Definition llgr_full_stream (ps : peer_src) (nh : option nexthop) (attrs : list attr) : list change :=
+  llgr_stream true ps nh attrs
+  ++ drop_no_llgr_changes IPV4_UNICAST 1 (ps_raddr ps) (Some 1) [llgr_path ps true nh attrs] false.
+
+Definition llgr_scenario_full (x : ectx) (pol : policy_fn) (emax : N) (raddr : ipaddr)
+           (cid : option N) (ps : peer_src) (nh : option nexthop) (attrs : list attr)
+  : res (list sinkop * list sinkop * emap) :=
+  let e0 := if emax =? 1 then ENone else EAddPath [] in
+  rbind (process_change x pol emax raddr cid (llgr_change1 ps nh attrs) e0) (fun r1 =>
+    rbind (run_changes x pol emax raddr cid (llgr_full_stream ps nh attrs) (snd r1)) (fun r2 =>
+      Ok (fst r1, fst r2, snd r2))).
+
 (* ------------------------------------------------------------ printers *)
 Definition v_attr (a : attr) : val :=
   match a_data a with
@@ -912,7 +997,11 @@ Inductive case :=
 | CHistory (x : ectx) (emax : N) (raddr : ipaddr) (cid : option N) (cs : list change) (probe : list N) (* 13 *)
 | CProcessRtc (x : ectx) (emax : N) (raddr : ipaddr) (cid : option N) (c : change) (e : emap) (probe : list N)
               (accept_all : bool) (rts : list (list N))                 (* 14: with an RtcFilter *)
-| CRestale (old_best : option N) (any_from_addr : bool) (addr : ipaddr) (paths : list path). (* 15: restale_llgr's stream *)
+| CRestale (old_best : option N) (any_from_addr : bool) (addr : ipaddr) (paths : list path) (* 15: restale_llgr's stream *)
+| CUpdates (has_family : bool) (x : ectx) (emax : N) (raddr : ipaddr) (cid : option N) (cs : list change)
+           (pol : option (stmt * option prepend_action * disp)) (probe : list (N * N))   (* 17: handle_prefix_update + PendingTx *)
+| CRefresh (x : ectx) (emax : N) (raddr : ipaddr) (cid : option N) (before walk : list change)
+           (pol1 pol2 : option (stmt * option prepend_action * disp)) (probe : list (N * N)). (* 18: then apply_refresh_walk *)
 
 Definition run_case (c : case) : val :=
   match c with
@@ -934,7 +1023,7 @@ Definition run_case (c : case) : val :=
     v_res (fun o => VOpt v_attrs o) (rx_reach x rid cid attrs)
   | CLlgrScenario x emax raddr cid ps nh attrs =>
     v_res (fun r => VL [VList v_sinkop (fst (fst r)); VList v_sinkop (snd (fst r))])
-          (llgr_scenario x no_policy emax raddr cid ps nh attrs)
+          (llgr_scenario_full x no_policy emax raddr cid ps nh attrs)
   | CProcessPol x emax raddr cid ch e probe st pre default =>
     v_res (fun r => VL [VList v_sinkop (fst r); v_emap (snd r) probe])
           (process_change_r x (stmt_policy_r x raddr st pre default) emax raddr cid ch e)
@@ -948,4 +1037,31 @@ Definition run_case (c : case) : val :=
     VList (fun c => VL [VB (c_best_changed c); VB (c_any_changed c); VOpt VN (c_replaced c);
                         VNs (map p_lpid (c_paths c))])
           (restale_llgr_changes IPV4_UNICAST 1 old any addr paths)
+  | CUpdates hf x emax raddr cid cs pol probe =>
+    let polr := match pol with
+                | None => lift_policy no_policy
+                | Some (st, pre, dflt) => stmt_policy_r x raddr st pre dflt
+                end in
+    v_res (fun r =>
+             VL [VList (fun dk => match pending_after (negb (emax =? 1)) (fst r) (fst dk) (snd dk) PNothing with
+                                  | PNothing => VL []
+                                  | PUnreach => VL [VN 0]
+                                  | PReach nh a => VL [VN 1; VOpt v_nh nh; v_attrs a]
+                                  end) probe;
+                 VList (fun d => VNs (sort_n (em_sent_path_ids (snd r) d))) (map fst probe)])
+          (run_updates hf x polr emax raddr cid cs (if emax =? 1 then ENone else EAddPath []))
+  | CRefresh x emax raddr cid before walk pol1 pol2 probe =>
+    let mk := fun pol => match pol with
+                         | None => lift_policy no_policy
+                         | Some (st, pre, dflt) => stmt_policy_r x raddr st pre dflt
+                         end in
+    v_res (fun r =>
+             VL [VList (fun dk => match pending_after (negb (emax =? 1)) (fst r) (fst dk) (snd dk) PNothing with
+                                  | PNothing => VL []
+                                  | PUnreach => VL [VN 0]
+                                  | PReach nh a => VL [VN 1; VOpt v_nh nh; v_attrs a]
+                                  end) probe;
+                 VList (fun d => VNs (sort_n (em_sent_path_ids (snd r) d))) (map fst probe)])
+          (rbind (run_updates true x (mk pol1) emax raddr cid before (if emax =? 1 then ENone else EAddPath []))
+                 (fun r1 => run_updates true x (mk pol2) emax raddr cid (flat_map (refresh_changes emax) walk) (snd r1)))
   end.
